@@ -1105,15 +1105,21 @@ def check(ctx):
             bmeta.extend(got[0])
     # clamp / leaky_clamp / Clamp() / LeakyClamp() (exact): input and bounds of different shapes, bounds also Python floats / ints / absent
     own_creqs, own_cmeta = [], []
-    for it_ in range(160 * n_own):
+    # corpus: every entry point x slope 0 / 1 / interior x every pair of bound forms (tensor of another shape, float, int, absent)
+    c_corpus = [(fn_, sl_, [b1, b2]) for fn_ in ("leaky", "clamp", "leaky_mod", "clamp_mod")
+                for sl_ in ((F(0), F(1), F(1, 4)) if fn_.startswith("leaky") else (F(0),))
+                for b1 in ("tensor", "float", "int", "none") for b2 in ("tensor", "float", "int", "none")]
+    for it_ in range(len(c_corpus) + 160 * n_own):
         fn = g.choice(["leaky", "clamp", "leaky_mod", "clamp_mod"])
         dtn = g.weighted([("float64", 3), ("float32", 1)])
         dt_ = getattr(torch, dtn)
         slope = g.choice([F(0), F(1, 128), F(1, 4), F(1, 2), F(1), F(1, 8)]) if fn in ("leaky", "leaky_mod") else F(0)
+        bforms = [g.weighted([("tensor", 4), ("tensor0", 1), ("float", 1.5), ("int", 1.5), ("none", 1)]) for _i in range(2)]
+        if it_ < len(c_corpus):
+            fn, slope, bforms = c_corpus[it_][0], c_corpus[it_][1], list(c_corpus[it_][2])
         mode = "mean" if fn == "clamp_mod" else g.choice(["mean", "max"])
         full = g.choice(FULL_SHAPES)
         x, xform = make(full if g.chance(0.6) else sub_shape(full), dt_, lambda: g.dy(-4, 4, 1))
-        bforms = [g.weighted([("tensor", 4), ("tensor0", 1), ("float", 1.5), ("int", 1.5), ("none", 1)]) for _i in range(2)]
         if fn == "clamp" and mode == "max":
             # torch.clamp: two tensors, two numbers or one bound (one of each is the known finding K1; no bound at all is a backend error)
             if bforms == ["none", "none"]:
@@ -1271,9 +1277,13 @@ def check(ctx):
         rows, exps, wdocs = [], [], []
         for st_, delta, gam in zip(states, deltas, gammas):
             wdoc = (3 * cost * gam ** 2 * (k * math.exp(st_["log_moneyness"])) / (2 * a)) ** (1 / 3) if cost > 0 else 0.0
-            where = g.choice(["inside", "above", "below", "at_delta", "far"])
-            prev = {"inside": delta + 0.5 * wdoc * g.r.uniform(-1, 1), "above": delta + wdoc + g.r.uniform(0.01, 1), "below": delta - wdoc - g.r.uniform(0.01, 1),
-                    "at_delta": delta, "far": g.r.uniform(-3, 3)}[where]
+            # ... incl. a previous hedge OUTSIDE the band by a few 1e-6 relative (far above float64 round-off: it is moved to the edge)
+            where = g.choice(["inside", "above", "below", "at_delta", "far", "just_above", "just_below"])
+            hi_, lo_ = delta + wdoc, delta - wdoc
+            prev = {"inside": delta + 0.5 * wdoc * g.r.uniform(-1, 1), "above": hi_ + g.r.uniform(0.01, 1), "below": lo_ - g.r.uniform(0.01, 1),
+                    "at_delta": delta, "far": g.r.uniform(-3, 3), "just_above": hi_ + g.choice([3e-6, 1e-6, 8e-6]) * max(abs(hi_), 1e-2),
+                    "just_below": lo_ - g.choice([3e-6, 1e-6, 8e-6]) * max(abs(lo_), 1e-2)}[where]
+            ctx.stats[f"own-result:ww:where={where}"] += 1
             rows.append([st_[nm] for nm in names[:-1]] + [prev])
             exps.append(prev if delta - wdoc <= prev <= delta + wdoc else (delta + wdoc if prev > delta + wdoc else delta - wdoc))
             wdocs.append(wdoc)
